@@ -64,6 +64,7 @@ type env struct {
 	backend string
 	dir     string
 	conn    driver.Conn
+	mtime   bool // file-system backends: opened with update_mtime=on (a Get also touches the file)
 }
 
 // once-per-run switches of the quick tier (package level: an env is made per history)
@@ -81,11 +82,11 @@ func (e *env) open() error {
 		}
 		return nil
 	case "fs":
-		c, err := fscache.Open("verif", fscache.WithBaseDir(e.dir))
+		c, err := fscache.Open("verif", fscache.WithBaseDir(e.dir), fscache.WithUpdateMTime(e.mtime))
 		e.conn = c
 		return err
 	case "fsenc":
-		c, err := fscache.Open("verif", fscache.WithBaseDir(e.dir), fscache.WithEncryption(encKey))
+		c, err := fscache.Open("verif", fscache.WithBaseDir(e.dir), fscache.WithEncryption(encKey), fscache.WithUpdateMTime(e.mtime))
 		e.conn = c
 		return err
 	}
@@ -871,6 +872,9 @@ func (e *env) runConc(id string, enc bool, dur time.Duration) {
 		tag = "mem"
 	}
 	e.emit("H\t%s\tC15\tconc-%s", id, tag)
+	// every second concurrent history with update_mtime=on: a Get then also touches the file it has read,
+	// which a concurrent Delete may have removed meanwhile
+	e.mtime = e.r.Intn(2) == 0
 	if err := e.open(); err != nil {
 		e.emit("S\tFATAL\t%s", hx(err.Error()))
 		e.emit("E\t%s", id)
@@ -979,6 +983,54 @@ func (e *env) runConc(id string, enc bool, dur time.Duration) {
 	e.emit("E\t%s", id)
 }
 
+// runConcKeys: DIFFERENT keys set for the first time at the same moment. Long keys are spread over fragment
+// directories; keys with a common beginning share directories that do not exist yet, and each Set creates
+// them. A map stores every one of them: after the Sets have returned, the sequence is replayed against the
+// model as if they had run one after the other (the keys are distinct, so the order does not matter).
+func (e *env) runConcKeys(id string) {
+	e.emit("H\t%s\tC14\t%s", id, e.backend)
+	if err := e.open(); err != nil {
+		e.emit("S\tFATAL\t%s", hx(err.Error()))
+		e.emit("E\t%s", id)
+		return
+	}
+	c := e.conn
+	n := 8 + e.r.Intn(24)
+	prefix := "http://example.com/" + strconv.Itoa(e.r.Intn(1000000)) + "/" + strings.Repeat("p", 60+e.r.Intn(300)) + "/"
+	keys := make([]string, n)
+	vals := make([][]byte, n)
+	for i := range keys {
+		keys[i] = prefix + strconv.Itoa(i) + "/" + strings.Repeat("q", e.r.Intn(120))
+		vals[i] = []byte("value-" + strconv.Itoa(i))
+	}
+	if e.r.Intn(4) == 0 {
+		keys[1] = keys[0] // the same long key twice
+		vals[1] = vals[0]
+	}
+	res := make([]error, n)
+	var wg sync.WaitGroup
+	startc := make(chan struct{})
+	for i := range keys {
+		wg.Add(1)
+		go func(i int) {
+			defer wg.Done()
+			<-startc
+			res[i] = c.Set(keys[i], vals[i])
+		}(i)
+	}
+	close(startc)
+	wg.Wait()
+	e.emit("S\tNOTE\tconckeys")
+	for i := range keys {
+		e.emit("S\tSET\t%s\t%s\t%s", hx(keys[i]), hx(string(vals[i])), cls(res[i]))
+	}
+	for i := range keys {
+		b, err := c.Get(keys[i])
+		e.emit("S\tGET\t%s\t%s\t%s", hx(keys[i]), cls(err), hx(string(b)))
+	}
+	e.emit("E\t%s", id)
+}
+
 /* ------------------------------- entry points ------------------------------- */
 
 func TestStoreChild(t *testing.T) {
@@ -1017,6 +1069,9 @@ func TestVerif(t *testing.T) {
 			e.backend = []string{"mem", "fs", "fsenc"}[i%3]
 			if i%10 == 9 {
 				e.runExpapi(id)
+			} else if i%10 == 7 {
+				e.backend = []string{"fs", "fsenc", "mem"}[(i/10)%3]
+				e.runConcKeys(id)
 			} else {
 				n := 40
 				if tier == "thorough" {
